@@ -1738,10 +1738,14 @@ def obl_layout_table(check, thorough=False, budget_s=None, numpad_rows_only=Fals
     shapes = []
     for i, r in enumerate(rows):
         # quick: the key itself, the next key of the table, a key outside every layout, an unpublished code; thorough: all 2^16 codes
-        others = None if thorough else [rows[(i + 1) % len(rows)][1], rows[(i + 37) % len(rows)][1], 0x0E1C, 0xFFFF]
+        if thorough:
+            # every 18th layout key: all 2^16 key codes; the others: the key itself, twelve other layout keys, keys outside every layout
+            others = None if i % 18 == 0 else [rows[(i + 1 + 9 * k) % len(rows)][1] for k in range(12)] + [0x0E1C, 0xFFFF, 0]
+        else:
+            others = [rows[(i + 1) % len(rows)][1], rows[(i + 37) % len(rows)][1], 0x0E1C, 0xFFFF]
         shapes.append(dict(row=r, others=others))
     check.bounds["layout_table"] = dict(layout="built by Layout::parse from a file that assigns text to the two planes of one key (each absent / empty / any 1-2 code points) and to one unrelated key; one shape per layout key (%d)" % len(rows),
-                                        key="all 2^16 codes" if thorough else "the key itself, two other layout keys, a published key without a layout entry, an unpublished code",
+                                        key="all 2^16 codes for every 18th layout key, else the key itself, twelve other layout keys and three codes outside every layout" if thorough else "the key itself, two other layout keys, a published key without a layout entry, an unpublished code",
                                         modifier="all 2^8 bytes", number_pad_option="symbolic", state="idle, all helpers and suggestions off")
     records, errors, summ = msym.run_shapes(check, "layout_table", shapes, make_layout_table, budget_s=budget_s)
     wit = [r for r in records if r["kind"] == "witness"]
